@@ -2306,6 +2306,31 @@ pub fn run(run: &mut Run, seed: u64, thorough: bool, replay: Option<&str>, corpu
     ] {
         cases.push(format!("igsx:.{}", hex(st.as_bytes())));
     }
+    // 5a. values the LEXER never produces but loop arithmetic does: every command letter, every argument count 1..=6, one
+    // argument negative or huge (fed as a loop parameter), the others 1 — found necessary by `G#&>0,5,1,0,t,1,-10:`
+    // (TimeAPause multiplied a negative count in u32)
+    {
+        let vals: &[&str] = if thorough { &["-1", "-50", "-32768", "99999", "-99999"] } else { &["-1"] };
+        let mut n = 0usize;
+        for l in letters.iter().filter(|l| **l != b'W') {
+            // (W = WriteText is the model's explicit `unmodelled` outcome: text output stays oracle-only)
+            for cnt in 1..=6usize {
+                for pos in 0..cnt {
+                    // quick tier: first and last argument only, negative value only (the model driver replays every loop step)
+                    if !thorough && pos != 0 && pos + 1 != cnt {
+                        continue;
+                    }
+                    for v in vals {
+                        let args: Vec<&str> = (0..cnt).map(|i| if i == pos { *v } else { "1" }).collect();
+                        let st = format!("G#&>0,1,1,0,{},{},{}:", *l as char, cnt, args.join(","));
+                        cases.push(format!("igsx:.{}", hex(st.as_bytes())));
+                        n += 1;
+                    }
+                }
+            }
+        }
+        run.extra.push(("igs_loop_fed_extreme_arguments".into(), n.to_string()));
+    }
     let n_igsx = if thorough { 8000 } else { 300 };
     for _ in 0..n_igsx {
         cases.push(format!("igsx:.{}", hex(&igsx_stream(&mut rng))));
